@@ -702,15 +702,12 @@ def families(tier: str) -> list[tuple[str, list[int]]]:
     if tier == "quick":
         return FAMILIES_QUICK + FAMILIES_TAG_BOUNDARY
     out = list(FAMILIES_TAG_BOUNDARY)
-    for bits in (1024, 2048, 3072, 4096):
-        for alg in (8, 10):
-            for cls in TAG_CLASSES:
-                if not any(name == f"rsa:{bits}:65537:{alg}@{cls}" for name, _ in out):
-                    out.append((f"rsa:{bits}:65537:{alg}@{cls}", [2] if cls == "carry2" else [1]))
-    for fam in ("ecdsa:13:n", "ecdsa:14:n", "eddsa:15", "eddsa:16"):
-        for cls in TAG_CLASSES:
-            if not any(name == f"{fam}@{cls}" for name, _ in out):
-                out.append((f"{fam}@{cls}", [1]))
+    extra = [f"rsa:{bits}:65537:{alg}@carry2" for bits in (1024, 2048, 3072, 4096) for alg in (8, 10)]
+    extra += [f"rsa:{bits}:65537:{alg}@{cls}" for bits, alg in ((1024, 8), (4096, 10)) for cls in ("tag0", "tagmax", "low0")]
+    extra += [f"{fam}@carry2" for fam in ("ecdsa:13:n", "ecdsa:14:n", "eddsa:15", "eddsa:16")] + [f"ecdsa:13:n@{cls}" for cls in ("tag0", "tagmax", "low0")]
+    for name in extra:
+        if not any(name == have for have, _ in out):
+            out.append((name, [2] if name.endswith("@carry2") else [1]))
     for bits in (1024, 2048, 3072, 4096):
         for e in (3, 65537, 2**32 + 1):
             for alg in (8, 10):
@@ -828,6 +825,8 @@ def run(tier: str, driver_ok: bool) -> Result:
             for tag, own, case, pol in corruptions(r, case0, pol0, family, tier):
                 case = as_sets(case)
                 full = tier == "thorough" and len(case["bundles"]) <= 2 and (not tag.startswith("declared-extra") or tag.endswith("as-configured"))
+                if "@" in family and tag.split(":")[0] not in ("honest", "tag", "flags", "protocol", "pk", "id-reuse", "same-key-two-ids", "key-alg"):
+                    full = False  # key-tag boundary bases: all 64 flag subsets for the corruptions that touch a key / its tag only
                 for flags in flag_sets(own, pol, r, "thorough" if full else "quick"):
                     p = dict(pol, **flags)
                     try:
